@@ -32,12 +32,17 @@ LEAN_MODULES = ['MlModel.Properties.C18']
 TRUSTED = [
     'modelled, not verified: CPython dict/list/tuple semantics (insertion order, negative indices, copy.copy), '
     'structural pattern matching in set/__getitem__/_default_tree, Mapping mixin items()/keys() — written out in Model/Tree.lean',
-    'ndarrays are opaque leaves in the Lean model: operations whose path indexes INTO an ndarray are skipped by the model; '
-    'the real code still runs the copying ones and the ORACLE alone judges them (original arrays unchanged at every depth, '
-    'get-after-set of an element, frame) — for those operations there is no theorem and no correspondence; key_paths= views are not modelled',
+    'ndarrays are heap objects of the Lean model (an `nd` cell = one array object = a C-contiguous window of a `buf` cell that '
+    'several array objects may share): reads and sets (copying and in place) whose path indexes INTO an ndarray are in the model and '
+    'in the correspondence, which compares object identity, BUFFER identity (owner of the memory: end of the .base chain), window '
+    'offset, shape and elements of every array in every result; modelled-not-verified numpy facts: basic integer indexing returns a view '
+    '(ndim > 1) or a scalar, copy.copy(arr) owns a new buffer, assignment broadcasts (surplus leading 1-dims dropped, lists converted with '
+    'at most ndim(window) dimensions), int64 only; a tuple-of-ints key (numpy multi-dimensional index) is NOT modelled: the model skips the '
+    'op, the real code still runs the copying ones and the ORACLE alone judges them; key_paths= views are not modelled',
 ]
 ASSUMPTIONS = [
-    'leaves are int/str/None/1-D int ndarray; dict keys are str/int/Literal objects; the view is built without key_paths',
+    'leaves are int/str/None; ndarrays are int64, 1-D or 2-D, C-contiguous (owning arrays and views of them); dict keys are '
+    'str/int/Literal objects; the view is built without key_paths',
     'no cyclic input data (in-place sets never store an ancestor); ndarray elements are assigned ints only where the get/set law is claimed',
 ]
 RULE = ('heaps of <= ~25 cells (trees of depth <= 4 of dict/list/tuple with int/str/None/ndarray leaves, ~15% aliased '
@@ -46,8 +51,11 @@ RULE = ('heaps of <= ~25 cells (trees of depth <= 4 of dict/list/tuple with int/
         'existing, fresh (dict key, append, append+deeper), negative / out-of-range / wrongly-typed, with SELF, SKIP '
         'and Literal at head or inside, ~12% malformed (misaligned multi-key values, empty keys with values, strict views); '
         'small-exhaustive part: every path of length <= 2 over a fixed key alphabet on 6 fixed trees; '
-        'plus two families: (a) trees with 1-D/2-D ndarray nodes (also as view root, also shared) and copying ops whose paths index '
-        'into them (existing / negative / out-of-range index, tuple-of-ints key) — oracle only; (b) iterate a view, derive a view by '
+        'plus two families: (a) trees with 1-D/2-D ndarray nodes (also as view root, also the same object twice, also VIEWS sharing a '
+        'buffer with another array inside or outside the tree) and copying AND in-place sets / updates / reads / items / apply whose paths '
+        'index into them (existing / negative / out-of-range index, key == len (AssertionError), str key, SELF / SKIP below the array, too '
+        'deep; values: int, arrays of equal / broadcastable / incompatible shape incl. a view of the same buffer, flat / nested / ragged int '
+        'lists, str, None, dict, NullMap) — model and code compared incl. buffer sharing; tuple-of-ints keys oracle only; (b) iterate a view, derive a view by '
         'a copying set/update that changes the set of leaf paths (fresh key, append, leaf->subtree, subtree->leaf), iterate the '
         'derived view object itself, chains of these. Along a sequence the SAME view objects are used (the view an op returned is '
         'the one later ops read) and the items oracle is evaluated on every source and derived view object; '
@@ -964,7 +972,11 @@ def extra(ctx):
       ctx.count(k, sub, n)
   need = {'outcome': ['set:ok', 'set:KeyError', 'set:TypeError', 'set:ValueError', 'get:ok', 'get:KeyError',
                       'get:IndexError', 'get:TypeError', 'items:ok', 'apply:ok', 'update:ok', 'inplace:ok'],
-          'sharing': ['result shares cells with input', 'result has fresh cells']}
+          'sharing': ['result shares cells with input', 'result has fresh cells'],
+          'ndarray': ['set into an array: ok', 'set into an array: KeyError', 'set into an array: AssertionError',
+                      'inplace into an array: ok', 'get into an array: ok', 'get into an array: IndexError',
+                      'read returned a new view of an input buffer', 'copying set returned a new array on a new buffer',
+                      'in-place set kept the array object', 'in-place write seen through >= 2 array objects (aliases)']}
   missing = [f'{k}/{x}' for k, xs in need.items() for x in xs if not _STATS.get(k, {}).get(x)]
   if missing:
     ctx.notes.append('coverage holes: ' + ', '.join(missing))
@@ -980,9 +992,71 @@ def _walk_ids(d, acc):
       _walk_ids(v, acc)
 
 
+def _walk_nd(d, acc):
+  if isinstance(d, dict):
+    if d.get('t') == 'nd':
+      acc.append(d)
+    for v in d.get('rs', []):
+      _walk_nd(v, acc)
+    for _, v in d.get('es', []):
+      _walk_nd(v, acc)
+
+
+def _nd_stats(case, op, o, kind):
+  """Which ndarray situations the correspondence covered (a path that indexes into an array)."""
+  def into_arr(p):
+    cur, heap = op.get('root'), case['heap']
+    if not isinstance(cur, int):
+      return None
+    for k in p:
+      c = heap[cur]
+      if c['t'] in ('arr', 'arr2', 'view'):
+        return True
+      nxt = None
+      if c['t'] == 'dict' and isinstance(k, dict):
+        for dk, v in c['es']:
+          if dk == k or ('i' in dk and dk.get('i') == k.get('x')):
+            nxt = v
+      elif c['t'] in ('list', 'tuple') and isinstance(k, dict) and ('x' in k or 'i' in k):
+        i = k.get('x', k.get('i'))
+        if -len(c['rs']) <= i < len(c['rs']):
+          nxt = c['rs'][i]
+      if nxt is None:
+        return False
+      cur = nxt
+    return False
+  if kind in ('set', 'inplace', 'get', 'getd') and op.get('keys') != 'empty':
+    ps = keys_paths(op['keys'])
+  elif kind == 'update':
+    ps = [p for p, _ in op['pairs']]
+  else:
+    return
+  if not any(into_arr(p) for p in ps):
+    return
+  _stat('ndarray', f"{kind} into an array: {o.get('err') or 'ok'}")
+  acc = []
+  for f in ('res', 'one'):
+    if f in o:
+      _walk_nd(o[f], acc)
+  for x in o.get('many', []):
+    _walk_nd(x, acc)
+  for d in acc:
+    fresh_obj, fresh_buf = d['id'].startswith('fresh#'), d['buf'].startswith('fresh#')
+    if kind in ('get', 'getd') and fresh_obj and not fresh_buf:
+      _stat('ndarray', 'read returned a new view of an input buffer')
+    if kind in ('set', 'update') and fresh_obj and fresh_buf:
+      _stat('ndarray', 'copying set returned a new array on a new buffer')
+    if kind == 'inplace' and not fresh_obj:
+      _stat('ndarray', 'in-place set kept the array object')
+  if kind == 'inplace' and len(o.get('changed') or []) >= 2:
+    _stat('ndarray', 'in-place write seen through >= 2 array objects (aliases)')
+
+
 def nontrivial(case, obs):
   for op, o in zip(case['ops'], obs['ops']):
     kind = 'inplace' if op.get('in_place') else op['op']
+    if not o.get('skipped'):
+      _nd_stats(case, op, o, kind)
     if o.get('skipped'):
       _stat('outcome', kind + ':skipped')
       continue
